@@ -6,7 +6,7 @@ use incan_core::errors::{ErrorKind, IncanError};
 
 /// What the oracle says about the call that is about to be made: `None` = returns normally,
 /// `Some(kind)` = stops with that error kind.
-pub static mut EXPECT_RAISE: Option<ErrorKind> = None;
+pub static mut EXPECT_RAISE: Option<IncanError<'static>> = None;
 
 /// Stand-in for `incan_stdlib::errors::raise` under Kani. A raise the oracle does not expect is a
 /// violation; an expected one ends the path (the harness asserts afterwards that no path *returns*
@@ -18,17 +18,23 @@ pub fn raise_stub<T: core::fmt::Display>(err: T) -> ! {
     if core::mem::size_of::<T>() == core::mem::size_of::<IncanError<'static>>() {
         // All call sites under test pass an `IncanError`; compare the kind.
         let e: IncanError<'static> = unsafe { core::mem::transmute_copy(&err) };
-        assert!(Some(e.kind()) == expect, "raised the wrong error kind");
+        let want = expect.unwrap();
+        assert!(e.kind() == want.kind(), "raised the wrong error kind");
+        // same constructor and same arguments (index, length, container / static text) as documented
+        assert!(e == want, "raised a different error (arguments/text) than the documented one");
+    } else {
+        assert!(false, "raised something that is not an IncanError");
     }
     kani::cover!(true, "documented raise reached");
     kani::assume(false);
     unreachable!()
 }
 
-/// Run `f`, which Python says either returns (`expect == None`) or raises kind `expect` with the
-/// documented text `text()` (the text is only built and compared natively).
+/// Run `f`, which Python says either returns (`expect == None`) or raises the documented error `expect`
+/// (compared as a value under Kani: same constructor, same index/length/container/static text; compared as
+/// rendered text natively).
 #[cfg(kani)]
-pub fn guarded<R>(expect: Option<ErrorKind>, _text: impl FnOnce() -> String, f: impl FnOnce() -> R) -> Option<R> {
+pub fn guarded<R>(expect: Option<IncanError<'static>>, f: impl FnOnce() -> R) -> Option<R> {
     unsafe { EXPECT_RAISE = expect };
     let r = f();
     unsafe { EXPECT_RAISE = None };
@@ -37,7 +43,8 @@ pub fn guarded<R>(expect: Option<ErrorKind>, _text: impl FnOnce() -> String, f: 
 }
 
 #[cfg(not(kani))]
-pub fn guarded<R>(expect: Option<ErrorKind>, text: impl FnOnce() -> String, f: impl FnOnce() -> R) -> Option<R> {
+pub fn guarded<R>(expect: Option<IncanError<'static>>, f: impl FnOnce() -> R) -> Option<R> {
+    let text = || expect.map(|e| e.to_string()).unwrap_or_default();
     match std::panic::catch_unwind(std::panic::AssertUnwindSafe(f)) {
         Ok(r) => {
             assert!(expect.is_none(), "returned although Python raises `{}`", text());
